@@ -102,7 +102,7 @@ u("astronomical_unit", au, L1, "au", S + " / IAU 2012 B2"); u("electron_volt", e
 u("degree_Celsius", 1, TEMP, "°C", S, kind="offset_unit", offset=str(D("273.15")))
 u("degree_Fahrenheit", F(5, 9), TEMP, "°F", "NIST SP 811 B.8: T/K = (t/°F + 459.67)/1.8", kind="offset_unit", offset=str(D("459.67") * F(5, 9)))
 u("degree_Rankine", F(5, 9), TEMP, "°R", "NIST SP 811 B.8", kind="offset_unit", offset="0")
-u("degree_Reaumur", F(4, 5), TEMP, None, "1 °Ré = 1.25 K, 0 °Ré = 273.15 K", kind="offset_unit", offset=str(D("273.15")))
+u("degree_Reaumur", F(5, 4), TEMP, None, "1 °Ré = 1.25 K, 0 °Ré = 273.15 K", kind="offset_unit", offset=str(D("273.15")))
 
 # ---- defining and conventional constants -----------------------------------------------
 C9 = "SI brochure 9th ed. (2019 defining constants)"
